@@ -522,6 +522,235 @@ def _work_seq(chunk):
     return ("ok", res)
 
 
+# ---------------------------------------------------------------------------------------------------------------
+# order-of-setter-calls family (harness command CO) and second conversion on the same object
+ORDER_NAME = ("canonical: SM inputs, pole masses, tan(beta), rest", "tan(beta) first, then SM inputs", "SM inputs last of all",
+              "canonical reversed call by call", "as GM2_slha_io::fill_slha (HMIX before GM2CalcInput alphas)",
+              "canonical with the example's SM inputs, then SM inputs overwritten")
+ORD_SM = [(0.00781, 0.0073, 80.0, 91.5, 0.11, 170.0, 4.5, 1.8),
+          (0.0076, 0.00729, 81.0, 90.5, 0.1, 175.0, 4.0, 1.7),
+          (0.0079, 0.0073, 79.5, 92.0, 0.1056583715, 173.34, 4.18, 1.777)]
+
+
+def ord_jobs(quick):
+    pts = []
+    rows = [(GAUGINO[0], SLEPTON[0]), (GAUGINO[1], SLEPTON[1]), (GAUGINO[4], SLEPTON[0])]
+    for tb in ([10.0, 60.0] if quick else TBS):
+        for sg in ((1, 1, 1), (-1, 1, -1)) if quick else SIGNS:
+            for (am, a1, a2, gn), (ml, mr, sn) in rows:
+                pts.append((tb, sg[0] * am, sg[1] * a1, sg[2] * a2, ml, mr, (gn, sn)))
+    precs = [1e-8, 1e-4] if quick else PRECS
+    perts = [0, 121, 242] if quick else [0, 121, 242, 5, 47, 200, 80]
+    return [(pt, sm, precs, perts) for pt in pts for sm in ORD_SM]
+
+
+def _cmp_results(r, f, prec, pars=(0, 1, 2, 3, 4), amu=True):
+    """r, f: token lists `OK flags <columns>` / `EXC ..` of two conversions that should agree -> None or description"""
+    if r == f:
+        return None
+    if r[0] != f[0]:
+        return "status %s vs %s" % (" ".join(r[:3]), " ".join(f[:3]))
+    if r[0] != "OK":
+        return None
+    fr, ff = int(r[1]), int(f[1])
+    if (fr & 1) != (ff & 1):
+        return "%s vs %s" % tuple("warning (flags %d)" % x if x & 1 else "no warning" for x in (fr, ff))
+    if fr & 1:
+        return None
+    pr, pf = [unhex(t) for t in r[2:7]], [unhex(t) for t in f[2:7]]
+    d = [abs(pr[i] - pf[i]) if i < 3 else abs(math.sqrt(abs(pr[i])) - math.sqrt(abs(pf[i]))) for i in pars]
+    da = abs(unhex(r[24]) - unhex(f[24])) / unhex(f[25]) if amu else 0.0
+    if max(d) <= RU_PAR_TOL * prec and da <= RU_AMU_TOL * prec:
+        return None
+    return ("parameters (mu,M1,M2,ml2,me2) %r vs %r (max |diff| %.3e GeV, allowed %g), a_mu %.10e vs %.10e"
+            % (pr, pf, max(d), RU_PAR_TOL * prec, unhex(r[24]), unhex(f[24])))
+
+
+def evaluate_ord(job, lines):
+    pt, sm, precs, perts = job
+    stats, fails, keys = {}, [], set()
+
+    def add(k, n=1):
+        stats[k] = stats.get(k, 0) + n
+
+    if not lines[0].startswith("G OK"):
+        add("ord_gen_skipped")
+        return stats, fails, keys
+    res = {}
+    for ln in lines[1:]:
+        tk = ln.split(None, 4)
+        res[(int(tk[1]), tk[2], int(tk[3]))] = tk[4]
+    for (mode, hp, pert), body in sorted(res.items()):
+        prec = unhex(hp)
+        order, second = mode % 10, mode >= 20
+        ctxt = "[set-up order %d = %s%s; SM inputs (alpha(MZ),alpha(0),MW,MZ,m_mu,mt,mb,mtau)=%r; tb=%g mu=%g M1=%g M2=%g mL=%g mR=%g, p=%g, guesses %s]" % (
+            order, ORDER_NAME[order], "; SECOND convert_to_onshell() on the same object" if second else "", sm,
+            pt[0], pt[1], pt[2], pt[3], pt[4], pt[5], prec, pert_name(pert))
+        st_, fl, ky, w = evaluate(pt, [lines[0], "R 0 %s %d %s" % (hp, pert, body)],
+                                  frozenset(("gaugino", "slepton")) if second else ALL_CLAUSES)
+        add("ord_conversions")
+        add("ord_checked", st_.get("checked", 0))
+        add("ord_warned", st_.get("warned", 0))
+        for key, what, _m, _p, _q in fl:
+            if not key.startswith("smuonR:post-fit-yukawa-update"):
+                key = "setter-order:order%d%s:%s" % (order, ":second-conversion" if second else "", key)
+            fails.append((key, "%s %s" % (what, ctxt)))
+        keys.add(("order", order, second, pt[6], "p=%.0e" % prec, pert, st_.get("warned", 0)))
+        # differential clauses
+        if not second and order > 0:
+            d = _cmp_results(body.split(), res[(10, hp, pert)].split(), prec)
+            add("ord_equal_to_canonical" if d is None else "ord_differs")
+            if body == res[(10, hp, pert)]:
+                add("ord_bitwise_equal_to_canonical")
+            if d is not None:
+                fails.append(("setter-order:order%d:differs-from-canonical-order" % order, "%s %s" % (d, ctxt)))
+        if second:
+            # me2 and a_mu are left out: the registered post-fit Yukawa update makes a second me2 fit start from another Yukawa
+            d = _cmp_results(body.split(), res[(10 + order, hp, pert)].split(), prec, pars=(0, 1, 2, 3), amu=False)
+            add("ord_second_conversion_same" if d is None else "ord_second_differs")
+            if d is not None:
+                fails.append(("setter-order:order%d:second-conversion-changes-result" % order, "%s %s" % (d, ctxt)))
+    return stats, fails, keys
+
+
+def _run_lines(lines, timeout=1200):
+    p = subprocess.run([_EXE], input="\n".join(lines) + "\n", stdout=subprocess.PIPE, stderr=subprocess.PIPE, text=True, timeout=timeout)
+    if p.returncode != 0:
+        raise InfraError("harness exit %d on %s: %s" % (p.returncode, lines[0][:120], p.stderr[-300:]))
+    out = [l for l in p.stdout.split("\n") if l]
+    if not out or not out[-1].startswith("END"):
+        raise InfraError("harness output truncated on " + lines[0][:120])
+    for l in out:
+        if l.startswith("ERR"):
+            raise InfraError(l + " <- " + lines[0][:200])
+    return out[:-1]
+
+
+def _split_G(out):
+    groups = []
+    for l in out:
+        if l.startswith("G "):
+            groups.append([l])
+        elif groups:
+            groups[-1].append(l)
+    return groups
+
+
+def _work_ord(job):
+    pt, sm, precs, perts = job
+    line = "CO %s %s %d %s %d %s" % (" ".join(hexf(v) for v in pt[:6] + (0.0,)), " ".join(hexf(v) for v in sm), len(precs),
+                                     " ".join(hexf(p) for p in precs), len(perts), " ".join(str(p) for p in perts))
+    try:
+        out = _run_lines([line])
+        return ("ok", job, line) + evaluate_ord(job, out)
+    except InfraError as e:
+        return ("infra", str(e))
+
+
+# ---------------------------------------------------------------------------------------------------------------
+# inconsistent-spectrum family (harness command CX): pole masses that no parameter point produces.  Oracle = the
+# property's own disjunction: warning, or the given pole masses are reproduced within the precision.
+def inc_points(quick):
+    pts = []
+    srows = [SLEPTON[0], SLEPTON[1], SLEPTON[4], SLEPTON[5], SLEPTON[7], SLEPTON[6]]
+    am, a1, a2, gn = GAUGINO[0]
+    for tb in ([10.0, 60.0] if quick else TBS):
+        for smu in (1, -1):
+            for ml, mr, sn in srows:
+                pts.append((tb, smu * am, a1, a2, ml, mr, (gn, sn)))
+    return pts
+
+
+def inc_kinds(g):
+    """(name, mixing, overrides {cha, chi, snu, sm}) for a generating spectrum g"""
+    out = []
+    m0, m1 = g["sm"]
+    moves = [0.0, 0.001, -0.001, 0.01, -0.01, 0.05, -0.05]
+    for fa in moves:
+        for fb in moves:
+            if fa == 0 and fb == 0:
+                continue
+            n0, n1 = m0 * (1 + fa), m1 * (1 + fb)
+            if n0 < n1:                       # the ordering of the two pole masses is kept
+                for mix in (0, 1):
+                    out.append(("smuons:%+g%%,%+g%%" % (100 * fa, 100 * fb), mix, dict(sm=[n0, n1])))
+    # minimal splitting the tree-level L-R mixing allows: m1^2 - m0^2 >= 2|b|, b = (m1^2 - m0^2) U00 U01 from the reported mixing
+    b = abs((m1 * m1 - m0 * m0) * g["usm"][0][0] * g["usm"][0][1])
+    dmin = 2 * b / (m0 + m1)
+    mean = 0.5 * (m0 + m1)
+    for f in (0.8, 0.5, 0.1):
+        for mix in (0, 1):
+            out.append(("smuons:squeezed-to-%g-of-minimal-splitting" % f, mix, dict(sm=[mean - f * dmin / 2, mean + f * dmin / 2])))
+    for f in (0.9, 1.05, 1.2):
+        for mix in (0, 1):
+            out.append(("sneutrino:x%g" % f, mix, dict(snu=g["snu"] * f)))
+    c0, c1 = g["cha"]
+    for name, cha in (("charginos:degenerate", [(c0 + c1) / 2] * 2), ("charginos:swapped", [c1, c0]),
+                      ("charginos:light+5%", [c0 * 1.05, c1]), ("charginos:heavy-5%", [c0, c1 * 0.95])):
+        for mix in (0, 1):
+            out.append((name, mix, dict(cha=cha)))
+    bg = bino_index(g)
+    for f in (0.95, 1.05):
+        chi = list(g["chi"])
+        chi[bg] *= f
+        for mix in (0, 1):
+            out.append(("bino:x%g" % f, mix, dict(chi=chi)))
+    out.append(("neutralinos:reversed", 1, dict(chi=list(g["chi"])[::-1])))
+    chi = list(g["chi"])
+    chi[bg] = c0
+    out.append(("bino:equal-to-light-chargino", 1, dict(chi=chi)))
+    return out
+
+
+def _work_inc(job):
+    pt, precs, perts = job
+    try:
+        gl = _run_lines(["C %s 0 1 %s 0" % (" ".join(hexf(v) for v in pt[:6] + (0.0,)), hexf(1e-8))])[0]
+        if not gl.startswith("G OK"):
+            return ("ok", job, {"inc_gen_skipped": 1}, [], set())
+        gtk = gl.split()
+        g, _ = parse_spec(gtk[2:])
+        kinds = inc_kinds(g)
+        lines, meta = [], []
+        for name, mix, ov in kinds:
+            cha, chi = ov.get("cha", g["cha"]), ov.get("chi", g["chi"])
+            snu, sm = ov.get("snu", g["snu"]), ov.get("sm", g["sm"])
+            tgt = list(gtk)
+            for i, v in zip((7, 8), sorted(cha)):
+                tgt[i] = hexf(v)
+            for i, v in zip((9, 10, 11, 12), chi):
+                tgt[i] = hexf(v)
+            tgt[17] = hexf(snu)
+            tgt[18], tgt[19] = hexf(sm[0]), hexf(sm[1])
+            for prec in precs:
+                for pert in perts:
+                    lines.append("CX %s %s %d %d %s" % (" ".join(hexf(v) for v in pt[:6] + (0.0,)), hexf(prec), pert, mix,
+                                                        " ".join(hexf(v) for v in list(cha) + list(chi) + [snu] + list(sm))))
+                    meta.append((name, mix, prec, pert, " ".join(tgt)))
+        out = _split_G(_run_lines(lines))
+        if len(out) != len(lines):
+            raise InfraError("CX: %d groups for %d commands" % (len(out), len(lines)))
+        stats, fails, keys = {}, [], set()
+        for (name, mix, prec, pert, tgt), grp, line in zip(meta, out, lines):
+            body = grp[1].split(None, 4)[4]
+            st_, fl, ky, w = evaluate(pt, [tgt, "R %d %s %d %s" % (mix, hexf(prec), pert, body)], frozenset(("gaugino", "slepton")))
+            stats["inc_conversions"] = stats.get("inc_conversions", 0) + 1
+            for k in ("checked", "warned"):
+                stats["inc_" + k] = stats.get("inc_" + k, 0) + st_.get(k, 0)
+            cls = name.split(":")[0]
+            stats["inc_%s:%s" % (cls, "warned" if st_.get("warned", 0) else "reproduced" if not fl else "known-or-violation")] = \
+                stats.get("inc_%s:%s" % (cls, "warned" if st_.get("warned", 0) else "reproduced" if not fl else "known-or-violation"), 0) + 1
+            keys.add(("inc", name, mix, pt[6][1], "p=%.0e" % prec, pert, bool(st_.get("warned", 0)), body.split()[-1]))
+            for key, what, _m, _p, _q in fl:
+                if not key.startswith("smuonR:post-fit-yukawa-update"):
+                    key = "inconsistent-spectrum:%s:%s" % (name.split(":")[0] if name.startswith("smuons:+") or name.startswith("smuons:-") else name, key)
+                fails.append((key, "%s [input pole spectrum '%s', %s NMIX/SMUMIX; tb=%g mu=%g M1=%g M2=%g mL=%g mR=%g, p=%g, guesses %s]"
+                              % (what, name, "with" if mix else "without", pt[0], pt[1], pt[2], pt[3], pt[4], pt[5], prec, pert_name(pert)), line))
+        return ("ok", job, stats, fails, keys)
+    except InfraError as e:
+        return ("infra", str(e))
+
+
 def _work(job):
     pt, modes, precs, perts, coff = job
     line = cmd_for(pt, modes, precs, perts, coff)
@@ -596,12 +825,45 @@ def run(ctx):
                         ctx.fail(key, what, {"seq": seq_cmd(job), "job": [job[0], hexf(job[1]), job[2], [list(s) for s in job[3]]]})
                 if ctx.out_of_time("re-use sequences"):
                     break
+    # ---- order of setter calls + second conversion; inconsistent pole spectra
+    ojobs = ord_jobs(ctx.quick)
+    ijobs = [(pt, [1e-8, 1e-4] if ctx.quick else PRECS, [121, 0]) for pt in inc_points(ctx.quick)]
+    if not stop:
+        with mp.Pool(min(16, os.cpu_count() or 4)) as pool:
+            for res in pool.imap(_work_ord, ojobs):
+                if res[0] == "infra":
+                    raise InfraError(res[1])
+                _, job, line, st, fails, keys = res
+                for k, v in st.items():
+                    total[k] = total.get(k, 0) + v
+                for k in sorted(keys):
+                    ctx.nontrivial(k)
+                for key, what in fails:
+                    ctx.fail(key, what, {"co": line, "cojob": [list(job[0][:6]) + [list(job[0][6])], list(job[1]), [hexf(p) for p in job[2]], job[3]]})
+            for res in pool.imap(_work_inc, ijobs):
+                if res[0] == "infra":
+                    raise InfraError(res[1])
+                _, job, st, fails, keys = res
+                for k, v in st.items():
+                    total[k] = total.get(k, 0) + v
+                for k in sorted(keys):
+                    ctx.nontrivial(k)
+                for key, what, line in fails:
+                    ctx.fail(key, what, {"cx": line, "cxpoint": list(job[0][:6]) + [list(job[0][6])]})
+    print("[C05] setter order: %d (point, SM set) x 6 orders: %d conversions + %d second conversions; checked %d, warned %d; equal to canonical "
+          "order %d (bitwise %d), second conversion unchanged %d"
+          % (len(ojobs), total.get("ord_conversions", 0) // 2, total.get("ord_conversions", 0) // 2, total.get("ord_checked", 0),
+             total.get("ord_warned", 0), total.get("ord_equal_to_canonical", 0), total.get("ord_bitwise_equal_to_canonical", 0),
+             total.get("ord_second_conversion_same", 0)))
+    print("[C05] inconsistent spectra: %d points, %d conversions: %d warned, %d checked; by class %s"
+          % (len(ijobs), total.get("inc_conversions", 0), total.get("inc_warned", 0), total.get("inc_checked", 0),
+             {k[4:]: v for k, v in sorted(total.items()) if k.startswith("inc_") and ":" in k}))
     print("[C05] object re-use: %d sequences (all ordered pairs%s over %d C++ / %d C states x guesses %s), %d conversions on a re-used "
           "object: %d bitwise equal to a fresh object, %d equal within the precision, clause oracle on %d (warned %d)"
           % (len(sjobs), "" if ctx.quick else " and triples", len(seq_states(0)), len(seq_states(1)), SEQ_PERTS, total.get("seq_steps", 0),
              total.get("seq_step_bitwise_equal_to_fresh", 0), total.get("seq_step_equal_within_precision", 0),
              total.get("seq_conversions_checked", 0), total.get("seq_conversions_warned", 0)))
-    ctx.evals(total.get("checked", 0) + total.get("seq_steps", 0))
+    ctx.evals(total.get("checked", 0) + total.get("seq_steps", 0) + total.get("ord_conversions", 0) + total.get("inc_conversions", 0))
     conv, warned, checked = total.get("conversions", 0), total.get("warned", 0), total.get("checked", 0)
     print("[C05] generating points %d (ok %d), conversions %d: checked %d, warned %d, exceptions %d"
           % (len(pts), total.get("gen_ok", 0), conv, checked, warned,
@@ -652,6 +914,27 @@ def replay(ctx, path):
     global _EXE
     _EXE = build.harness("mssm_ref", "plain", ["mssm_ref.cpp"])
     d = json.load(open(path))["data"]
+    if "co" in d or "cx" in d:
+        import fnmatch
+        if "co" in d:
+            j = d["cojob"]
+            job = (tuple(j[0][:6]) + (tuple(j[0][6]),), tuple(j[1]), [unhex(p) for p in j[2]], j[3])
+            res = _work_ord(job)
+            fails = [(k, w) for k, w in res[5]] if res[0] == "ok" else None
+        else:
+            pt = tuple(d["cxpoint"][:6]) + (tuple(d["cxpoint"][6]),)
+            res = _work_inc((pt, PRECS, [121, 0]))
+            fails = [(k, w) for k, w, l in res[3] if l == d["cx"]] if res[0] == "ok" else None
+        if fails is None:
+            raise InfraError(res[1])
+        for key, what in fails:
+            if any(fnmatch.fnmatchcase(key, f["key"]) for f in ctx.findings):
+                continue
+            print("replay: %s: %s" % (key, what))
+            print("VIOLATION property=C05 replay=%s" % path)
+            return 1
+        print("replay: holds now")
+        return 0
     if "seq" in d:
         import fnmatch
         j = d["job"]
